@@ -184,6 +184,7 @@ func Harness_C16_serve_gates() {
 
 type verifFilesT struct {
 	started, finished int
+	links             []string // topic (or user) each LinkAttachments call was for
 }
 
 var verifFiles *verifFilesT
@@ -196,6 +197,7 @@ func (f *verifFilesT) FinishUpload(fd *types.FileDef, success bool, size int64) 
 func (f *verifFilesT) Get(fid string) (*types.FileDef, error)                 { return nil, nil }
 func (f *verifFilesT) DeleteUnused(olderThan time.Time, limit int) error     { return nil }
 func (f *verifFilesT) LinkAttachments(topic string, msgId types.Uid, attachments []string) error {
+	f.links = append(f.links, topic)
 	return nil
 }
 
@@ -302,6 +304,56 @@ func Harness_C16_receive_gates() {
 	if allowed {
 		verifAssert(mh.uploads == 1 && mh.received == int64(fileBytes), "authorised-upload-stored-byte-for-byte")
 		verifAssert(w.code == 200, "authorised-upload-acknowledged")
+	}
+	verifReach("end")
+}
+
+// ---- linking of avatars: a {set desc} re-links the topic's avatar exactly when it changes the topic's own
+// description (public / trusted / default access) and is acknowledged - never on a private-only update (a topic
+// has one link: re-linking to whatever a member listed would unlink the real avatar and let it be collected),
+// never for a refused request.
+func Harness_C16_setdesc_links_avatar() {
+	fx := verifNewTopic(verifKindGrp, 2)
+	t := fx.topic
+	t.public = "public-v1"
+	fx.store.topics[t.name].Public = t.public
+	verifFiles = &verifFilesT{}
+	store.Files = verifFiles
+	actor := fx.uids[verifChoose("actor", 2)]
+	sess := verifNewSession("sid-a", actor, auth.LevelAuth, 16)
+	fx.attach(sess, actor, false)
+	d := &MsgSetDesc{}
+	setPublic, setPrivate := verifNondetBool("setPublic"), verifNondetBool("setPrivate")
+	if setPublic {
+		d.Public = "public-v2"
+	}
+	if setPrivate {
+		d.Private = "private-v2"
+	}
+	msg := &ClientComMessage{Id: "r1", AsUser: actor.UserId(), AuthLvl: int(auth.LevelAuth), Original: t.name, RcptTo: t.name,
+		Timestamp: types.TimeNow(), sess: sess, init: true, MetaWhat: constMsgMetaDesc,
+		Set: &MsgClientSet{Id: "r1", Topic: t.name, MsgSetQuery: MsgSetQuery{Desc: d}}}
+	withAtt := verifNondetBool("withAttachment")
+	if withAtt {
+		msg.Extra = &MsgClientExtra{Attachments: []string{"/v0/file/s/abc"}}
+	}
+	t.handleMeta(msg)
+	ok := false
+	for _, r := range verifDrainSend(sess) {
+		if r != nil && r.Ctrl != nil && r.Ctrl.Id == "r1" && r.Ctrl.Code < 300 {
+			ok = true
+		}
+	}
+	want := 0
+	if ok && setPublic && withAtt {
+		want = 1
+	}
+	verifAssert(len(verifFiles.links) == want, "avatar-relinked-exactly-when-the-topic-description-changes")
+	for _, l := range verifFiles.links {
+		verifAssert(l == t.name, "avatar-linked-to-this-topic")
+	}
+	if setPublic && actor != t.owner {
+		verifAssert(!ok && t.public == "public-v1", "only-the-owner-changes-the-public-description")
 	}
 	verifReach("end")
 }
